@@ -15,7 +15,8 @@ KINDS = ["member_order", "compression", "form", "rechunk", "list_perm", "offsets
 def gen_relayout(rng) -> dict:
     kinds = [k for k in KINDS if rng.random() < 0.45] or [rng.choice(KINDS)]
     return {"kinds": kinds, "seed": rng.getrandbits(32), "form": rng.choice(["file", "pkgzip", "pkgloose"]),
-            "chunk": rng.choice([1, 2, 7, 64, 1000, 4096, 65535, 65536, "ragged"]), "offset_mode": rng.choice(["narrow", "wide", "flip"])}
+            "chunk": rng.choice([1, 2, 7, 64, 1000, 4096, 65535, 65536, "ragged"]), "offset_mode": rng.choice(["narrow", "wide", "flip"]),
+            "per_row": rng.choice([1.0, 0.5, 0.5, 0.2])}
 
 
 def apply_relayout(path: str, spec: dict) -> dict:
@@ -53,8 +54,12 @@ def apply_relayout(path: str, spec: dict) -> dict:
         n_to_narrow = n_to_wide = 0
         for o in pkg.by_type("TST.Tile"):
             changed = False
+            # rows of one tile are converted independently (real tiles may mix both encodings row by row)
+            per_row = spec.get("per_row", 1.0)
             for ri in o.msg.rowInfos:
                 if not ri.cell_offsets:
+                    continue
+                if rng.random() >= per_row:
                     continue
                 cnt = len(ri.cell_offsets) // 2
                 offs = list(struct.unpack(f"<{cnt}h", ri.cell_offsets))
